@@ -18,6 +18,9 @@
   tools/seedcheck.py runmissing [--tier quick]
       runall, restricted to the seeds whose meta.json has no checks_on_repo entry for the tier.
 
+  tools/seedcheck.py try <seed_id> [checks...]
+      One seed against a scratch copy, nothing recorded (while strengthening a check).
+
   tools/seedcheck.py sweep [-j N]
       Regression sweep after the checks themselves changed: every seed's patch is applied to its
       own scratch copy (VERIF_REPO, removed afterwards) and the target property's quick check is
@@ -153,13 +156,18 @@ def main():
             if tier not in json.load(open(d)).get("checks_on_repo", {}):
                 run_on_repo(os.path.basename(os.path.dirname(d)), tier, a[1:])
         return 0
+    if a[0] == "try":
+        sid, res = sweep_one(a[1], a[2:], record=False)
+        for c, r in res.items():
+            print("%s %s: %s %s" % (sid, c, r.get("verdict"), r.get("keys")))
+        return 0
     if a[0] == "sweep":
         j = int(a[a.index("-j") + 1]) if "-j" in a else 4
         return sweep(j)
     print(__doc__); return 2
 
 
-def sweep_one(sid):
+def sweep_one(sid, only=None, record=True):
     dst = os.path.join(ROOT, "seeded", sid)
     meta = json.load(open(os.path.join(dst, "meta.json")))
     d = tempfile.mkdtemp(prefix="ivgsweep-%s-" % sid)
@@ -174,9 +182,10 @@ def sweep_one(sid):
         prev = meta.get("checks_on_repo", {}).get("quick", {}) or meta.get("checks_on_scratch_copy", {})
         if prev.get(prop, {}).get("verdict") != "caught":
             checks = [c for c, r in prev.items() if r.get("verdict") == "caught"] or [prop]
-        res = run_checks(checks, dict(ENV, VERIF_REPO=repo, VERIF_TMP=d))
-        meta["checks_sweep"] = res
-        json.dump(meta, open(os.path.join(dst, "meta.json"), "w"), indent=1)
+        res = run_checks(only or checks, dict(ENV, VERIF_REPO=repo, VERIF_TMP=d))
+        if record:
+            meta["checks_sweep"] = res
+            json.dump(meta, open(os.path.join(dst, "meta.json"), "w"), indent=1)
         return sid, res
     finally:
         shutil.rmtree(d, ignore_errors=True)
